@@ -5,7 +5,7 @@ CONFIG = {
     "lean": ["VProps.C14"],
     "sources": ["VProps/C14.lean", "VModel/FedCheck.lean", "VModel/FedCheckSpec.lean", "VModel/FedCheckInst.lean",
                 "VProofs/FedCheck.lean", "VProofs/FedCheckLog.lean", "VProofs/FedCheckChain.lean"],
-    "theorems": ["V.C14.state_response_fails_iff", "V.C14.state_response_exact", "V.C14.state_response_sound", "V.C14.send_join_accept_iff", "V.C14.retry_terminates", "V.C14.checkAllowed_terminates", "V.C14.at_state_iff", "V.C14.auth_chain_iff", "V.C14.load_classification", "V.C14.collect_mem", "V.C14.collect_no_panic", "V.C14.padd_idem", "V.C14.authOracles_addIdem", "V.C14.authOraclesBy_addIdem", "V.C14.backfill_sound", "V.C14.tableProvider_provOK", "V.FedCheck.retryAE_eq_stepC", "V.FedCheck.checkAllowed_contract", "V.FedCheck.verifyEventAuthChain_log", "V.FedCheck.chainStep_post"],
+    "theorems": ["V.C14.state_response_fails_iff", "V.C14.state_response_exact", "V.C14.state_response_sound", "V.C14.send_join_accept_iff", "V.C14.retry_terminates", "V.C14.checkAllowed_terminates", "V.C14.at_state_iff", "V.C14.auth_chain_iff", "V.C14.auth_chain_iff_table", "V.C14.auth_chain_iff_capped", "V.C14.atStateCited_eq", "V.FedCheck.tableProvider_tableLike", "V.FedCheck.capProvider_tableLike", "V.FedCheck.loopAE_calls", "V.C14.load_classification", "V.C14.collect_mem", "V.C14.collect_no_panic", "V.C14.padd_idem", "V.C14.authOracles_addIdem", "V.C14.authOraclesBy_addIdem", "V.C14.backfill_sound", "V.C14.tableProvider_provOK", "V.FedCheck.retryAE_eq_stepC", "V.FedCheck.checkAllowed_contract", "V.FedCheck.verifyEventAuthChain_log", "V.FedCheck.chainStep_post"],
     "rule": "fedcheck: /state and /send_join responses, auth chains, state-at-event checks, LoadAndVerify inputs and backfill transactions built "
             "from generated rooms (create, power levels, join rules, 3-6 members, re-joins, topic changes, messages; events carry proper auth_events "
             "chosen as StateNeededForAuth would, prev_events chains, valid content hashes and are read back through NewEventFromUntrustedJSON) for "
@@ -14,20 +14,30 @@ CONFIG = {
             "too-large-but-persistable event, content tampered after hashing (same ID, read back redacted), references to unknown IDs, repeated PDU, "
             "cyclic / self references (v1, v2)} x provider behaviours {nil, empty, returns the event, nothing, error, ANOTHER event, event plus an "
             "extra one, a non-state event, mixtures} x StateProvider behaviours {true state, an auth event missing from the IDs (slow path), empty, "
-            "state that refuses the event, non-state event in the state, ID lookup error, state lookup error} x allowValidation. Compared: returned ID "
+            "state that refuses the event, non-state event in the state, ID lookup error, state lookup error} x allowValidation; "
+            "systematically (every room version x allowValidation): events whose auth_events LEAVE OUT the state event that decides -- a "
+            "message without the power levels that raise events_default, a topic change without them, a join without the (public) join "
+            "rules, a message without the sender's membership, a banned user's join without the ban, and a control; "
+            "provider scripts with `max=<k>` (k = 0..3): AT MOST k events per call, so that batch answers differ from the single-ID answers "
+            "and what a batch leaves out reaches the lookup table through the retry of checkAllowedByAuthEvents (random chains, and every "
+            "refused-citation-free-event chain with k = 1, 2, also through LoadAndVerify and RequestBackfill). Compared: returned ID "
             "lists (in order for state / send_join, sorted for load / backfill), error class, []EventLoadResult classes, sorted provider call log, "
             "termination (a scripted provider called more than 400 times is reported as `panic:nontermination`). Systematically, every tier: "
             "(a) room versions 1 and 2, where the event ID is a member of the event: responses carrying two DIFFERENT events under one event ID "
             "-- the genuine one and a twin whose signature fails / that is verified but refused by the auth rules (same or another "
             "(type, state_key)) -- x 4 placements (genuine in auth_events and twin in state_events, the reverse, both in auth_events in either "
             "order) for /state and /send_join; returned EVENTS are identified by ID and content, the scripted signature oracle is per redacted "
-            "JSON (argument `sigcls`, checked against the library's redaction); (b) every room version: auth chains in which a FETCHED auth "
+            "JSON (argument `sigcls`, checked against the library's redaction); (a') EVERY room version: the same event twice, once with its "
+            "signature replaced (same event ID: the reference hash does not cover signatures) x the 4 placements -- exactly the copy whose "
+            "signature fails is dropped; (b) every room version: auth chains in which a FETCHED auth "
             "event cites no auth events and is refused (an outsider's join / power levels / second create citing nothing, one or two levels "
             "below the event to verify, and as the event itself) against a contract-abiding provider, through VerifyEventAuthChain, "
-            "LoadAndVerify and RequestBackfill. spec stream: VModel.FedCheckSpec (filters by `good`, accept-iff, chain closure, "
-            "first-failing-check classes) wherever the provider script abides by the contract ON THE IDS THAT CAN BE ASKED FOR (the auth "
-            "event IDs of the events in play and, recursively, of the events the script holds for them; entries for other IDs are never "
-            "consulted); `unspecified` otherwise. backfill_props: the driver evaluates on the implementation's answer that every returned "
+            "LoadAndVerify and RequestBackfill. spec stream: VModel.FedCheckSpec (filters by `good` PER EVENT, accept-iff, chain closure "
+            "over every event the provider hands out, allowed-by-the-WHOLE-state-before-the-event, first-failing-check classes) wherever the "
+            "provider script abides by the contract ON THE IDS THAT CAN BE ASKED FOR (the auth event IDs of the events in play and, "
+            "recursively, of the events the script holds for them; entries for other IDs are never consulted; a `max=<k>` provider with "
+            "k >= 1 abides by it when the events it holds for those IDs are state events); `unspecified` otherwise; atstate ops whose "
+            "returned state holds two events in one (type, state_key) slot are skipped (the Go map's iteration order decides). backfill_props: the driver evaluates on the implementation's answer that every returned "
             "event is a cleanly parsed PDU of some server's answer, fails its signature check or passes auth chain and state-at-event "
             "check, and that no event ID is returned twice. non-trivial = an op whose outcome is not a plain malformed-response error",
     "nontrivial": lambda op, impl: impl != "err:malformed",
@@ -38,8 +48,9 @@ CONFIG = {
     ],
     "assumptions": [
         "the context is never cancelled",
-        "the EventProvider is stateless (answers as a function of the requested IDs)",
-        "the exactness theorems about CheckStateResponse / CheckSendJoinResponse / VerifyEventAuthChain assume the provider contract ProvOK (single-ID requests are answered with an error, nothing, or exactly the requested event); termination of checkAllowedByAuthEvents needs no contract (retry_terminates, checkAllowed_terminates; fixed finding 778c3d3). Ops whose provider answers with OTHER events stay in the stream as regression guards: the scripted provider gives up after 400 calls and the harness reports `panic:nontermination`, always a concrete violation",
+        "the EventProvider is stateless (answers as a function of the requested IDs); the model of VerifyEventAuthChain reads the events the provider handed out during checkAllowedByAuthEvents off the requests made (`handedOut`)",
+        "VerifyAuthRulesAtState adds the returned state to the AuthEvents provider in the iteration order of a Go map: the model takes the order of the scripted list; for a state (one event per (type, state_key)) every order yields a provider that answers every lookup alike; a returned 'state' containing an event without a state key is refused (model, code and specification)",
+        "the exactness theorems about CheckStateResponse / CheckSendJoinResponse assume the provider contract ProvOK (single-ID requests are answered with an error, nothing, or exactly the requested event); auth_chain_iff assumes TableLike: the provider answers from a table of events keyed by their own IDs, single-ID requests exactly, batch requests possibly LEAVING EVENTS OUT (auth_chain_iff_capped: at most k+1 events per call) -- except events without a state key, which the code treats differently in a batch (AddEvent error) and in a retry (ignored); termination of checkAllowedByAuthEvents needs no contract (retry_terminates, checkAllowed_terminates; fixed finding 778c3d3). Ops whose provider answers with OTHER events stay in the stream as regression guards: the scripted provider gives up after 400 calls and the harness reports `panic:nontermination`, always a concrete violation",
         "auth_chain_iff is stated for runs that finish within the model's fuel (a bound on the loop's iterations is not proved)",
         "RequestBackfill deliberately passes on events that fail the signature check -- which, classification being by the first failing check, were never auth-checked (collect_mem, backfill_sound); C14's statement does not name RequestBackfill: the spec stream of backfill_props reads its title for it with exactly that exception",
     ],
